@@ -92,9 +92,14 @@ def make_qpu(w, tid, n: int):
             psi = dual_rail_amplitudes(o, n)
             items = [(lw.State(y), float(abs(a) ** 2))
                      for (_b, y), a in zip(dual_rail_outputs(n), psi, strict=True)]
-            # a device never reports outcomes at the level of rounding noise
-            items = [(s, p) for s, p in items if p > 1e-12]
-            rng.shuffle(items)
+            if ctl.get("zeros"):
+                # a full table: every dual-rail outcome in lexicographic order,
+                # impossible ones with frequency exactly zero
+                items = [(s, p if p > 1e-12 else 0.0) for s, p in items]
+            else:
+                # a device never reports outcomes at the level of rounding noise
+                items = [(s, p) for s, p in items if p > 1e-12]
+                rng.shuffle(items)
             results[i] = dict(items)
         return results
     return qpu
@@ -139,6 +144,7 @@ def _tomo_new(w, o):
     c = w.get("c", o["c"])
     w.meta["tomo"][o["out"]] = {"attempts": 0, "fail_on": None,
                                 "rewrite": o.get("rewrite"),
+                                "zeros": o.get("zeros", False),
                                 "order_seed": o.get("order_seed", 0),
                                 "circuit": o["c"], "n": o["n"], "handed": []}
     try:
@@ -168,6 +174,7 @@ def _qpu_profile(w, o):
     w.get("tomo", o["t"])
     m = w.m("tomo", o["t"])
     m["rewrite"] = o.get("rewrite")
+    m["zeros"] = o.get("zeros", False)
     m["order_seed"] = o.get("order_seed", 0)
 
 
@@ -230,6 +237,7 @@ class Tomographer(Client):
                     "rewrite": r.choice([None, "unpack_groups",
                                          "compress_mode_swaps",
                                          "remove_non_adjacent_bs"]),
+                    "zeros": r.random() < 0.3,
                     "order_seed": r.randrange(1 << 20)}
         if k == "rho":
             return {"op": "tomo_rho", "t": tid}
@@ -256,6 +264,7 @@ class Tomographer(Client):
                 "rewrite": r.choice([None, None, "unpack_groups",
                                      "compress_mode_swaps",
                                      "remove_non_adjacent_bs"]),
+                "zeros": r.random() < 0.3,
                 "order_seed": r.randrange(1 << 20)}
 
     def base_edit(self, cid):
